@@ -39,6 +39,11 @@ def run(ctx):
     r = uroles(ctx)
     if r.ADD_DELEGATES:
         from .engine import Undecided
+        if r.ADD_DEADLINE:
+            blk, what = r.ADD_DEADLINE
+            ctx.ob('R05.4', 'add() waits for a slot without a deadline', False, ctx.where(r.ADD, blk.term.line),
+                   'add() hands the adder it delegates to a deadline that is not `None` (from %s): on a full pool it gives up / refuses instead of waiting' % what,
+                   construct='add:delegated-deadline')
         raise Undecided(r.ADD_DELEGATES)
     prog = ctx.prog
     bodies = r.bodies()
